@@ -1,6 +1,6 @@
 """C10 -- reflowing to a maximum line length preserves meaning and honours the limit."""
 import re
-from vfy.lemma import lemma, P
+from vfy.lemma import lemma, P, Duck
 from vfy.lemmas.common import S, all_in, by, fixed, cp_in
 from mistletoe.markdown_renderer import MarkdownRenderer, Fragment
 
@@ -9,10 +9,11 @@ ASSUMPTIONS = ['C10/W1b: words are duck strings that carry only a symbolic LENGT
 OUTSIDE = ['documents beyond the W4 bound', 'the recorded class "a wrapped word looks like a block marker" (excluded by the property itself)']
 
 
-class LenStr:
-    """string known only by its length and the ids of the words it is made of"""
-    def __init__(self, n, ids):
-        self.n, self.ids = n, ids
+class LenStr(Duck):
+    """string known only by its length, the ids of the words it is made of, and the number of
+    trailing blanks of its last word (a word that precedes a hard line break spelled with spaces ends in them)"""
+    def __init__(self, n, ids, trail=0):
+        self.n, self.ids, self.trail = n, ids, trail
 
     def __len__(self):
         return self.n
@@ -22,11 +23,14 @@ class LenStr:
 
     def __add__(self, o):
         if isinstance(o, str):
-            return LenStr(self.n + len(o), self.ids)
-        return LenStr(self.n + o.n, self.ids + o.ids)
+            return LenStr(self.n + len(o), self.ids, len(o) - len(o.rstrip()) if o.strip() == '' and o != '' else 0)
+        return LenStr(self.n + o.n, self.ids + o.ids, o.trail)
 
     def __radd__(self, o):
-        return LenStr(len(o) + self.n, self.ids)
+        return LenStr(len(o) + self.n, self.ids, self.trail)
+
+    def rstrip(self, chars=None):
+        return LenStr(self.n - self.trail, self.ids, 0)
 
     def __eq__(self, o):
         return False
@@ -38,9 +42,9 @@ class LenStr:
        stubs=['make_words -> k words of symbolic length (LenStr)', 'hard breaks as the literal word "\\n" at symbolic positions'],
        covers=['markdown_renderer.py:MarkdownRenderer.fragments_to_lines'],
        note='ALL integer word lengths >= 1 and limits L >= 1: every emitted line is <= L long or a single word; words come out in order, none lost; a hard break ends the line')
-def w1b_fill(n1: int, n2: int, n3: int, n4: int, n5: int, n6: int, h1: bool, h2: bool, h3: bool, h4: bool, h5: bool, L: int) -> bool:
+def w1b_fill(n1: int, n2: int, n3: int, n4: int, n5: int, n6: int, h1: bool, h2: bool, h3: bool, h4: bool, h5: bool, L: int, t: int) -> bool:
     """
-    pre: n1 >= 1 and n2 >= 1 and n3 >= 1 and n4 >= 1 and n5 >= 1 and n6 >= 1 and L >= 1
+    pre: n1 >= 1 and n2 >= 1 and n3 >= 1 and n4 >= 1 and n5 >= 1 and n6 >= 1 and L >= 1 and 0 <= t <= 3
     post: _
     """
     k = P('k')
@@ -48,9 +52,12 @@ def w1b_fill(n1: int, n2: int, n3: int, n4: int, n5: int, n6: int, h1: bool, h2:
     hs = [h1, h2, h3, h4, h5][:k - 1]
     words = []
     for i, n in enumerate(ns):
-        words.append(LenStr(n, (i,)))
-        if i < len(hs) and hs[i]:
+        hard = i < len(hs) and hs[i]
+        # a word before a hard break carries the break's t trailing blanks (t = 0: backslash spelling)
+        words.append(LenStr(n + (t if hard else 0), (i,), t if hard else 0))
+        if hard:
             words.append('\n')
+    ns = [w.n for w in words if not isinstance(w, str)]
 
     class R(MarkdownRenderer):
         @classmethod
